@@ -70,7 +70,7 @@ class Reactor(MemoryReactorClock):
     def listenTCP(self, port, factory, backlog=50, interface=''):
         if self.fail_bind:
             raise error.CannotListenError(interface, port, OSError('address in use'))
-        fp = FakePort(interface, LOCAL_PORT if port == 0 else port)
+        fp = FakePort(interface, (LOCAL_PORT + len(self.ports)) if port == 0 else port)
         self.ports.append(fp)
         return fp
 
@@ -86,7 +86,7 @@ def setup(mode):
     endpoints.tempfile = type('T', (), {'mkdtemp': staticmethod(lambda prefix='': '/nonexistent/tortmp-harness')})
 
 
-def _listen(version, use_auth, single_hop, with_key, public_port, fault):
+def _listen(version, use_auth, single_hop, with_key, public_port, fault, with_local_port=False, retry=False):
     """fault: 0 none, 1 config Deferred fails, 2 config is not a TorConfig, 3 local bind fails, 4 ADD_ONION rejected,
     5 every upload FAILED, 6 connection lost before the ADD_ONION reply"""
     p, t, tor = make_world(dict(INITIAL), True, {})
@@ -122,7 +122,7 @@ def _listen(version, use_auth, single_hop, with_key, public_port, fault):
     try:
         ep = TCPHiddenServiceEndpoint(reactor, config, public_port, ephemeral=True,
                                       private_key=('ED25519-V3:c2VjcmV0' if version == 3 else 'RSA1024:c2VjcmV0') if with_key else None,
-                                      version=version, single_hop=single_hop, auth=None)
+                                      version=version, single_hop=single_hop, auth=None, local_port=8080 if with_local_port else None)
         o = fakes.Outcome(ep.listen(Factory()))
         tor.pump()
         if fault == 6:
@@ -140,7 +140,7 @@ def _listen(version, use_auth, single_hop, with_key, public_port, fault):
             if len(adds) != 1:
                 return R('not-exactly-one-ADD_ONION', '%r', adds)
             d = parse_add_onion(adds[0])
-            if d is None or d['ports'] != ['%d,127.0.0.1:%d' % (public_port, LOCAL_PORT)]:
+            if d is None or d['ports'] != ['%d,127.0.0.1:%d' % (public_port, reactor.ports[-1].port)]:
                 return R('tor-not-asked-to-forward-the-public-port-to-the-local-listener', '%r', adds[0])
             if o.fired:
                 return R('listen-fired-before-the-descriptor-wait-was-over')
@@ -171,6 +171,19 @@ def _listen(version, use_auth, single_hop, with_key, public_port, fault):
             open_ports = [fp for fp in reactor.ports if not fp.stopped]
             if open_ports:
                 return R('local-listener-left-open-after-failed-listen', 'fault %d: port %d still listening', fault, open_ports[0].port)
+            if retry and fault in (4, 5):
+                # a second attempt on the same endpoint binds a fresh local port; Tor must be pointed at *that* one
+                fault = 0
+                n_add = len([ln for ln in tor.lines if ln.startswith('ADD_ONION')])
+                o2 = fakes.Outcome(ep.listen(Factory()))
+                tor.pump()
+                adds = [ln for ln in tor.lines if ln.startswith('ADD_ONION')][n_add:]
+                live = [fp for fp in reactor.ports if not fp.stopped]
+                if len(adds) != 1 or len(live) != 1:
+                    return R('retry-did-not-bind-and-ask-once', 'adds %r live %d', adds, len(live))
+                d2 = parse_add_onion(adds[0])
+                if d2 is None or d2['ports'] != ['%d,127.0.0.1:%d' % (public_port, live[0].port)]:
+                    return R('tor-not-asked-to-forward-the-public-port-to-the-local-listener', 'retry: listening on %d, asked %r', live[0].port, adds[0])
     except Exception as e:
         return R('exception', '%s: %s', type(e).__name__, e)
     reached()
@@ -178,12 +191,16 @@ def _listen(version, use_auth, single_hop, with_key, public_port, fault):
 
 
 @cond(quick=dict(parts=[{'fault': f} for f in range(7)], budget=100))
-def c17_listen(fault: int, version: int, single_hop: bool, with_key: bool, public_port: int) -> str:
-    """ephemeral endpoint, failure injected at step `fault`; version / single-hop / key / public port chosen by the solver"""
+def c17_listen(fault: int, version: int, single_hop: bool, with_key: bool, public_port: int, with_local_port: bool, retry: bool) -> str:
+    """ephemeral endpoint, failure injected at step `fault`; version / single-hop / key / public port / caller-supplied
+    local_port / a retry of listen() after the failure chosen by the solver"""
     version = api.pick_from(version, (2, 3))
     public_port = api.pick_from(public_port, (1, 80, 65535))
+    if fault not in (4, 5):
+        assume(not retry)
     with api.no_tracing():
-        return _listen(version, False, True if single_hop else False, True if with_key else False, public_port, fault)
+        return _listen(version, False, True if single_hop else False, True if with_key else False, public_port, fault,
+                       True if with_local_port else False, True if retry else False)
 
 
 def _valid(ephemeral, hsdir, auth, stealth_auth, private_key, single_hop):
